@@ -711,7 +711,6 @@ func (x *Exec) doAppend(st *State, in ssa.Instruction, c *ssa.CallCommon, args [
 	return res
 }
 
-
 func litInt(t Term) (int64, bool) {
 	var n int64
 	if _, err := fmt.Sscanf(t.S, "%d", &n); err == nil && fmt.Sprint(n) == t.S {
